@@ -100,6 +100,7 @@ def enum_units(tier, seed):
                 units.append({"t": "edges", "mode": mode, "lo": lo, "hi": lo + 0x40000, "seed": seed})
     for mode in MODES:
         units.append({"t": "via-program", "mode": mode, "seed": seed})
+        units.append({"t": "via-assembly", "mode": mode, "seed": seed})
     units.append({"t": "ptr16"})
     units.append({"t": "ptr24"})
     return {"units": units, "exhaustive": tier == "thorough"}
@@ -209,6 +210,40 @@ def run_case(case) -> Outcome:
         out.evals, out.nontrivial = len(offs), len(offs)
         out.labels = [f"via-program:{mode}"]
         out.sample = {"mode": mode, "offsets": len(offs), "history": "a .map program and a HiROM program assembled first"}
+        return out
+    if t == "via-assembly":
+        # "the mapped file offset" as the assembler itself writes it: one program that moves to rom_to_snes(o) for many offsets
+        # o in a shuffled order (offset 0 and the bank edges are revisited after other positions) and writes a marker there
+        import random
+
+        mode = case["mode"]
+        _, r2s, _ = _funcs()
+        rng = random.Random(case["seed"])
+        top = 0x3F0000 if mode != "low" else 0x3F0000
+        offs = [0, 1, 0x7FFF, 0x8000, 0xFFFF, 0x10000, 0x1FFFFF, 0x200000] + [rng.randrange(0, top) for _ in range(120)]
+        offs = [o for o in dict.fromkeys(offs) if busmodel.builtin(mode).kind(busmodel.rom_to_snes(o, mode)) == "rom"]
+        rng.shuffle(offs)
+        if offs[0] == 0:
+            offs.append(offs.pop(0))
+        offs += [0, offs[0]]  # back to the first ROM byte, and to the first position, at the end
+        lines, want = [], []
+        for i, o in enumerate(offs):
+            a = r2s(o, driver.rom_type(mode))
+            lines.append(f"{'*=' if i % 3 else '@=0x7e0000' + chr(10) + '*='}0x{a:06x}\n.db 0x{i & 0xFF:02x}, 0x{(o >> 8) & 0xFF:02x}\n")
+            want.append((o, bytes([i & 0xFF, (o >> 8) & 0xFF])))
+        res = driver.assemble_mem("".join(lines), rom=mode)
+        sub = {"t": "via-assembly", "mode": mode, "seed": case["seed"]}
+        if not res.accepted:
+            out.bad(f"assembly:{mode}:rejected", sub, f"{mode}: program of `*=rom_to_snes(o)` positions rejected: {res['exc']} {res.failure_text[:200]}")
+        else:
+            got = [(a, bytes(d)) for a, d in res["blocks"]]
+            if got != want:
+                k = next((i for i, (g, w) in enumerate(zip(got, want)) if g != w), min(len(got), len(want)))
+                out.bad(f"assembly:{mode}:offset", sub, f"{mode}: write #{k} after `*=rom_to_snes({want[k][0] if k < len(want) else 0:#x})`: expected block {want[k] if k < len(want) else None}, "
+                        f"got {got[k] if k < len(got) else None} ({len(got)} blocks, {len(want)} expected)")
+        out.evals, out.nontrivial = len(offs), len(offs)
+        out.labels = [f"via-assembly:{mode}"]
+        out.sample = {"mode": mode, "positions": len(offs), "first": lines[:3]}
         return out
     if t == "ptr16":
         n = 0
